@@ -185,6 +185,19 @@ def run_use(u):
                     d = same_vector(r1, r2)
                     if d:
                         recs.append(dict(base, kind="conversion-with-keywords-differs", got=d, kw=kws_syn))
+            elif use == "kw":
+                v = build(backend, "momentum", sig)
+                dim = len(sig) + 1
+                lon_kw = syn == "pz"
+                if lon_kw and dim != 2:
+                    return recs, 0
+                for val in (0.0, 2.5, -1.25):
+                    for method in (("to_Vector3D", "to_3D", "to_Vector4D", "to_4D") if lon_kw else ("to_Vector4D", "to_4D")):
+                        calls += 2
+                        r1, r2 = getattr(v, method)(**{syn: val}), getattr(v, method)(**{geo: val})
+                        d = same_vector(r1, r2)
+                        if d:
+                            recs.append(dict(base, kind="keyword-synonym-differs", method=method, value=val, got=d))
             elif use == "twin":
                 vm, vg = build(backend, "momentum", sig), build(backend, "generic", sig)
                 dim = len(sig) + 1
